@@ -73,7 +73,7 @@ Definition op_ctcq (n : node) : sexp :=
      e_tag "logical" [e_bool (is_logical n)];
      e_tag "arithmetic" [e_bool (is_arithmetic n)];
      e_tag "aggregation" [e_bool (is_aggregation n)];
-     e_tag "single" [e_rbool (is_single_feature n)];
+     e_tag "single" [e_bool (is_single_feature n)];
      e_tag "requires" [e_rbool (is_requires n)];
      e_tag "excludes" [e_rbool (is_excludes n)];
      e_tag "simple" [e_rbool (is_simple n)];
